@@ -798,7 +798,10 @@ class NestedSequenceConverter(t.Generic[T, U], Converter[T]):
                 self._check_shape(result)
             except ValueError:
                 raise ParseInterrupt()
-        return self.constructor(result)
+        try:
+            return self.constructor(result)
+        except Exception:  # (collect_errors reports the cause)
+            raise ParseInterrupt() from None
 
     def _try_convert(self, val: t.Any) -> NestedSequence[U]:
         if not data_is_sequence(val):
